@@ -65,6 +65,23 @@
 #include "QXmppE2eeExtension.h"
 #include "QXmppFutureUtils_p.h"
 
+// an application plug-in that announces an identity and a feature; two instances (or one next to QXmppRpcManager) announce the same
+// identity twice (C20: what is advertised must be the hash of what is answered, repeated identities included)
+class DupIdentity : public QXmppClientExtension
+{
+public:
+    bool named = false;
+    QList<QXmppDiscoveryIq::Identity> discoveryIdentities() const override
+    {
+        QXmppDiscoveryIq::Identity id;
+        id.setCategory(named ? u"gateway"_s : u"automation"_s);
+        id.setType(named ? u"sms"_s : u"rpc"_s);
+        if (named) id.setName(u"SMS relay"_s);
+        return { id };
+    }
+    QStringList discoveryFeatures() const override { return { u"urn:example:plug-in-feature"_s }; }
+};
+
 // a stand-in for an end-to-end encryption manager on the sending side (C17): like the OMEMO manager it hands the message back with its
 // sensitive fields still set (the client's encrypted send path must write the public part only) and marks it with XEP-0380 only when
 // `markAlways` is set or the message has a body; the "ciphertext" is an application element
@@ -658,7 +675,11 @@ struct Case {
         QObject::connect(cl, &QXmppClient::iqReceived, &c.ctx, [=](const QXmppIq &iq) { sig("iqReceived", { { "id", iq.id() }, { "type", int(iq.type()) } }); });
         for (auto v : st["managers"].toArray()) {
             const QString m = v.toString();
-            if (m == u"fakee2ee" || m == u"fakee2ee-mark") {
+            if (m == u"dupident" || m == u"dupident-named") {
+                auto *e = new DupIdentity;
+                e->named = m.endsWith(u"named");
+                cl->addExtension(e);
+            } else if (m == u"fakee2ee" || m == u"fakee2ee-mark") {
                 auto *e = new FakeE2ee;
                 e->markAlways = m.endsWith(u"mark");
                 cl->setEncryptionExtension(e);
@@ -1579,6 +1600,22 @@ struct Case {
                     }
                     const bool isData = o["child"].toString() == u"data" && o["childns"].toString() == u"http://jabber.org/protocol/ibb" && o["type"].toString() == u"set";
                     const bool isClose = o["child"].toString() == u"close" && o["childns"].toString() == u"http://jabber.org/protocol/ibb" && o["type"].toString() == u"set";
+                    const bool isOpen = o["child"].toString() == u"open" && o["childns"].toString() == u"http://jabber.org/protocol/ibb" && o["type"].toString() == u"set";
+                    if (isOpen && kind == u"closebeforeopen") {
+                        // the session is closed before it was ever opened: <open/> is lost (the sender is told so), <close/> arrives
+                        J({ { "ev", "fault_injected" }, { "kind", kind }, { "at", 0 } });
+                        cn->send("<iq type='error' id='" + o["id"].toString().toUtf8() + "' from='" + jids[1 - k].toUtf8() + "'><error type='cancel'><not-acceptable xmlns='urn:ietf:params:xml:ns:xmpp-stanzas'/></error></iq>");
+                        other->send("<iq xmlns='jabber:client' type='set' id='close-before-open' from='" + jids[k].toUtf8() + "' to='" + jids[1 - k].toUtf8() + "'><close xmlns='http://jabber.org/protocol/ibb' sid='" + tamper["sid"].toString().toUtf8() + "'/></iq>");
+                        continue;
+                    }
+                    if (isOpen && kind == u"bigblock") {
+                        // the peer proposes a block size the receiver refuses (XEP-0047 resource-constraint); a sender that gives up closes the session
+                        J({ { "ev", "fault_injected" }, { "kind", kind }, { "at", 0 } });
+                        QDomDocument d;
+                        d.setContent(out, true);
+                        d.documentElement().firstChildElement().setAttribute(u"block-size"_s, 65535);
+                        out = d.toByteArray(-1);
+                    }
                     if (isData) {
                         const int n = dataSeen++;
                         if (n == at) {
